@@ -104,17 +104,24 @@ class Url:
             rest = raw[len(SLASH + SLASH):]
         if scheme is not None or starts_with_double_slash:
             assert rest is not None
-            parts = rest.split(SLASH, 1)
-            username, password, host, port = Url._parse(parts[0])
+            # Authority is terminated by the first slash or question mark.
+            # A query following the authority directly implies an empty path.
+            end = len(rest)
+            for sep in (SLASH, b'?'):
+                idx = rest.find(sep)
+                if idx != -1:
+                    end = min(end, idx)
+            remainder: Optional[bytes] = rest[end:]
+            if remainder and not remainder.startswith(SLASH):
+                remainder = SLASH + remainder
+            username, password, host, port = Url._parse(rest[:end])
             return cls(
                 scheme=scheme if not starts_with_double_slash else b'http',
                 username=username,
                 password=password,
                 hostname=host,
                 port=port,
-                remainder=None if len(parts) == 1 else (
-                    SLASH + parts[1]
-                ),
+                remainder=remainder or None,
             )
         username, password, host, port = Url._parse(raw)
         return cls(username=username, password=password, hostname=host, port=port)
